@@ -371,6 +371,15 @@ S["adaptive_shift_trigger"] = dict(
 S["adaptive_plain_trigger"] = dict(
     until=5, sims=[E("Fe", init_event=1, next=[2], emit_default=0), H("Gu", adaptive=True)],
     conns=[C("Fe", "Gu", "eo", "ti")])
+# one pair inside a group with a plain non-triggering connection and -- connected last -- a weak
+# triggering one in the SAME direction (different entities); the receiver has steps of its own
+# that coincide with the sender's (both connection orders)
+for _nm, _cs in (("plain_then_weak_same_dir", [CE("Co", "e", "Mo", "e", "po", "mi"), CE("Co", "f", "Mo", "f", "eo", "ti", weak=True)]),
+                 ("weak_then_plain_same_dir", [CE("Co", "f", "Mo", "f", "eo", "ti", weak=True), CE("Co", "e", "Mo", "e", "po", "mi")])):
+    S[_nm] = dict(until=4, max_loop=4, groups=G1,
+                  sims=[H("Co", ents=2, group="g", next_default=1, emit_default=0),
+                        H("Mo", ents=2, group="g", next_default=2)],
+                  conns=_cs)
 # loops on two levels of nested groups: neither makes max_loop iterations, together they do
 S["loop_two_levels"] = dict(
     until=1, max_loop=3, groups={"g": None, "h": "g"}, max_budget=0,
